@@ -28,6 +28,24 @@ pub fn run(rep: &mut Report, thorough: bool) {
             let d = unrank(i, &dims);
             flow(d[1] == 1, d[2] as u16, 3478).udp(&sel[d[0] as usize].bytes)
         });
+        // address alphabets (pseudo-header inputs): every reply kind x client / server address
+        // alphabets incl. unspecified, broadcast, multicast, loopback
+        {
+            use crate::props::c02::{elicit, Kind};
+            let ip4: Vec<Ip> = vec![cli4(), Ip::V4([0, 0, 0, 0]), Ip::V4([255, 255, 255, 255]), Ip::V4([224, 0, 0, 1]), Ip::V4([127, 0, 0, 1]), srv4(), srv4b(), Ip::V4([169, 254, 1, 1])];
+            let ip6: Vec<Ip> = vec![cli6(), Ip::parse("::"), Ip::parse("ff02::1"), Ip::parse("::1"), srv6(), srv6b(), Ip::parse("fe80::1"), Ip::parse("::ffff:10.0.0.9")];
+            let kinds4 = [Kind::Arp, Kind::Echo, Kind::Syn, Kind::Stun];
+            let kinds6 = [Kind::Ns, Kind::Echo, Kind::Syn, Kind::Stun];
+            let dims = [8u64, 8, 4, 2];
+            sweep_frames(rep, &cfg, &format!("addr-alphabet-{}", tag), "client IP (8) x server IP (8) x reply kind (4) x IP version", product(&dims), |i| {
+                let d = unrank(i, &dims);
+                if d[3] == 1 {
+                    elicit(kinds6[d[2] as usize], &MAC_SRV, &ip6[d[0] as usize], &ip6[d[1] as usize])
+                } else {
+                    elicit(kinds4[d[2] as usize], &MAC_SRV, &ip4[d[0] as usize], &ip4[d[1] as usize])
+                }
+            });
+        }
         // ICMP echo: identifier sweep both versions (checksum of the reply takes every value)
         sweep_frames(rep, &cfg, &format!("echo-id-{}", tag), "echo identifier 0..65535 x {v4,v6}", 65536 * 2, |i| flow(i >= 65536, 1, 1).icmp_echo(i as u16, 1, b"x"));
         // echo with odd/even lengths 0..1472
